@@ -51,25 +51,7 @@ theorem uint_dec_parse_back (n : Nat) (h : n < two64) : parseDec (uintStr n 10) 
 theorem uint_hex_parse_back (n : Nat) (h : n < two64) : parseHex (uintStr n 16) = some n := parseHex_uintStr n h
 
 /-- `append_int`: every signed 64-bit value (given as its bit pattern) reads back to that pattern -/
-theorem int_parse_back (u : Nat) (h : u < two64) : parseNumber64 (intStr u) = some u := by
-  have hmod : u % two64 = u := Nat.mod_eq_of_lt h
-  unfold intStr
-  rw [hmod]
-  by_cases hneg : u ≥ two63
-  · simp only [hneg, if_true]
-    have hm : two64 - u < two64 := by unfold two64 at *; unfold two63 at hneg; omega
-    simp only [parseNumber64, parseMagnitude_dec _ hm, Option.bind]
-    have h1 : two64 - u ≤ two63 := by unfold two64 two63 at *; omega
-    have h2 : two64 - u ≠ 0 := by omega
-    simp only [h1, h2, ne_eq, not_false_eq_true, and_self, if_true]
-    congr 1; omega
-  · simp only [hneg, if_false]
-    have hp := uintStr_dec_plain u
-    unfold parseNumber64
-    split
-    · rename_i rest heq
-      exact absurd rfl (hp '-' (by rw [heq]; simp)).2
-    · simp [parseMagnitude_dec u h, h]
+theorem int_parse_back (u : Nat) (h : u < two64) : parseNumber64 (intStr u) = some u := parseNumber64_intStr u h
 
 /-- immediates: for every flag combination the text of an immediate reads back to its 64-bit value
     (`-1`, `10`, `0xFFFFFFFFFFFFFFFF` …) -/
